@@ -448,19 +448,26 @@ class ASTListener(ModelicaListener):
         #       E.g. self.ast[x] below, instead of self.ast[x.expression].
         self.ast[ctx] = ast.Expression(
             operator=self.ast[ctx.component_reference()],
-            operands=[
-                self.ast[x.expression()]
-                for x in ctx.function_call_args().function_arguments().function_argument()
-            ],
+            operands=self._call_operands(ctx.function_call_args()),
+        )
+
+    def _call_operands(self, args_ctx: ModelicaParser.Function_call_argsContext):
+        # `f()` has no function_arguments node at all
+        arguments = args_ctx.function_arguments()
+        if arguments is None:
+            return []
+        return [self.ast[x.expression()] for x in arguments.function_argument()]
+
+    def exitPrimary_initial(self, ctx: ModelicaParser.Primary_initialContext):
+        self.ast[ctx] = ast.Expression(
+            operator="initial",
+            operands=self._call_operands(ctx.function_call_args()),
         )
 
     def exitPrimary_derivative(self, ctx: ModelicaParser.Primary_derivativeContext):
         self.ast[ctx] = ast.Expression(
             operator="der",
-            operands=[
-                self.ast[x.expression()]
-                for x in ctx.function_call_args().function_arguments().function_argument()
-            ],
+            operands=self._call_operands(ctx.function_call_args()),
         )
         # TODO 'state' is not a standard prefix;  disable this for now as it does not work
         # when differentiating states defined in superclasses.
